@@ -123,11 +123,9 @@ theorem skipBlanks_blanks (inp : List Nat) (q : Nat) (bl : List Nat) (c : Nat) (
     simp [List.head?_eq_getElem?]
   have hdrop2 : inp.drop (q + bl.length) = c :: r := by
     rw [← List.drop_drop, hdrop]; simp
-  unfold skipBlanks
   have e1 : consumeWhitespace inp q = q + bl.length := by
     unfold consumeWhitespace
     rw [hdrop, countWhile_blanks bl c r hbl hc]
-  rw [e1]
   have e2 : consumeComment inp (q + bl.length) = q + bl.length := by
     unfold consumeComment
     rw [hc0, hc1]
@@ -139,9 +137,18 @@ theorem skipBlanks_blanks (inp : List Nat) (q : Nat) (bl : List Nat) (c : Nat) (
       cases h1
       exact absurd ⟨rfl, Or.inr h2⟩ hcomment
     · rfl
-  rw [e2]
-  unfold consumeWhitespace
-  rw [hdrop2]
-  simp [countWhile, hc]
+  have e3 : consumeWhitespace inp (q + bl.length) = q + bl.length := by
+    unfold consumeWhitespace
+    rw [hdrop2]
+    simp [countWhile, hc]
+  have hlt : q + bl.length < inp.length := (List.getElem?_eq_some_iff.mp hc0).1
+  unfold skipBlanks
+  have hf : inp.length - q + 1 = (inp.length - q - 1) + 1 + 1 := by omega
+  rw [hf]
+  simp only [skipLoop, e1, e2]
+  by_cases hb : q + bl.length = q
+  · rw [if_pos hb]; omega
+  · rw [if_neg hb]
+    simp only [e3, e2, if_true]
 
 end Dmn.Lexer
